@@ -678,6 +678,9 @@ func runRemoveRace(k int, sc Scn, r *vh.Rand) (res Res) {
 			hung++
 		}
 		_ = l
+		if hung >= 3 {
+			break // every further attempt would cost the same 3 s
+		}
 	}
 	res.Extra["remove-race-attempts"] = sc.Pairs
 	res.Extra["remove-race-send-on-closed"] = snd
